@@ -214,6 +214,35 @@ def jobs_C16(tier):
     return j
 
 
+def xjob(prop, prec, family, n, grid, slices=NS, variant='q'):
+    k = slices
+    return [{'engine': 'mcexpert/mcexpert.c', 'variant': variant, 'prec': prec,
+             'args': ['--prop', prop, '--family', family, '--n', str(n), '--grid', grid, '--slice', '%d/%d' % (i, k)]} for i in range(k)]
+
+
+def jobs_expert(prop, tier):
+    j = []
+    q = tier == 'quick'
+    for p in 'sdcz':
+        j += xjob(prop, p, 'pat', 1, 'full', 1); j += xjob(prop, p, 'pat', 2, 'full', 1)
+        j += xjob(prop, p, 'pat', 3, 'quick' if (q or p != 'd') else 'full', 16 if p == 'd' or not q else 4)
+        j += xjob(prop, p, 'graded', 0, 'quick' if q else 'full', 2)
+    if not q:
+        j += xjob(prop, 'd', 'pat', 4, 'quick', 16)
+        j += xjob(prop, 'd', 'pat', 3, 'quick', 4, variant='qv')
+    if prop == 'C11':
+        for p in 'sdcz':
+            j += xjob(prop, p, 'equ', 11, 'quick', 1); j += xjob(prop, p, 'equ', 12, 'quick', 1); j += xjob(prop, p, 'equ', 21, 'quick', 1); j += xjob(prop, p, 'equ', 22, 'quick', 2)
+            if p == 'd' or not q:
+                j += xjob(prop, p, 'equ', 23, 'quick', 16); j += xjob(prop, p, 'equ', 32, 'quick', 16)
+    return j
+
+
+RULE_X = ('exhaustive enumeration: every structurally nonsingular 0/1 pattern of the stated size with generic values x 6 scalings (none, rows, columns, both by powers of two, '
+          'uniformly huge, uniformly tiny: they force every equed outcome) x trans {N,T,C} x storage {NC,NR} x fact {DOFACT, EQUILIBRATE, FACTORED after DOFACT, FACTORED after EQUILIBRATE} '
+          'x nrhs x leading dimensions (tight and padded, ldb != ldx) x thresholds x threads, plus a graded family n=4..6 with prescribed singular values (one decade apart up to 1e13 / 1e4); '
+          'each case is one or two p?gssvx calls judged against long-double / quad-precision references; distinct_nontrivial counts distinct (input, options, info, equed, perm_r, perm_c) outcomes')
+
 RULE_SEQ = ('exhaustive enumeration: every 0/1 pattern of the stated size (all 2^(n*n) bit masks, sliced 16 ways) x the '
             'configuration grid of the tier (panel size, relaxation, max supernode, 1-D/2-D blocking, threshold u, storage mode, '
             'every forced pivot order n! where stated) plus a fixed catalogue of structured matrices n=6..12; a case is one library '
@@ -253,6 +282,21 @@ SPECS = {
             'rule': 'same exploration as C03; in every execution: deadlock (no enabled thread) / runaway detection by the scheduler, exactly-once accounting of panels, columns, pivots and releases, tasks_remain == untaken panels at every scheduler return, queue bounds, every created thread joined',
             'assumptions': ['sequential consistency', 'CPU oversubscription / injected delays of the property text are replaced by exhaustive bounded schedules'],
             'deadline': {'quick': 900, 'thorough': 4 * 3600}},
+    'C07': {'jobs': lambda t: jobs_expert('C07', t), 'level': 'exploration', 'rule': RULE_X,
+            'assumptions': ['hypothesis cond*growth*n*eps <= 1e-3 decides between the refined bound 8(n+1)eps on the componentwise backward error of X for the ORIGINAL system and the unrefined C01-style bound',
+                            'signatures carry the precision class (real/complex): the s/d and c/z code paths differ'],
+            'deadline': {'quick': 600, 'thorough': 3 * 3600}},
+    'C11': {'jobs': lambda t: jobs_expert('C11', t), 'level': 'exploration', 'rule': RULE_X + '; family equ: direct ?gsequ/?laqgs calls on ALL 1x1, 1x2, 2x1, 2x2, 2x3, 3x2 matrices over a 10-letter exponent alphabet {0, 2^-1000, 2^-500, 1, 3, 2^500, 2^1000, near overflow, denormal, -2.5} (precision-scaled) and all 45 (rowcnd, colcnd, amax) threshold classes of ?laqgs',
+            'assumptions': ['scale factors compared within 2-8 ulp of the long-double reference; entries whose combined factor R_i*C_j over/underflows in working precision are not judged (same in LAPACK ?laqge)'],
+            'deadline': {'quick': 600, 'thorough': 3 * 3600}},
+    'C12': {'jobs': lambda t: jobs_expert('C12', t), 'level': 'exploration', 'rule': RULE_X,
+            'assumptions': ['hypothesis: cond <= 1e-3/eps, u >= 0.1; references from a long-double inverse; tolerance 64 n eps cond + 1e-3 on the two rcond bounds',
+                            'complex magnitudes for pivot growth are CABS1 as in the library'],
+            'deadline': {'quick': 600, 'thorough': 3 * 3600}},
+    'C13': {'jobs': lambda t: jobs_expert('C13', t), 'level': 'exploration', 'rule': RULE_X,
+            'assumptions': ['berr compared with the componentwise backward error of the returned X on the equilibrated system (abs. slack 4(n+2)eps + 2%)',
+                            'exact solution = quad-precision (113 bit) solve of the caller\'s original system; ferr claim only for cond < 0.1/eps (original and equilibrated), slack 40 as in TESTING/p?drive.c'],
+            'deadline': {'quick': 600, 'thorough': 3 * 3600}},
     'C09': {'jobs': jobs_C09, 'level': 'exploration', 'rule': RULE_SEQ,
             'assumptions': ['checker wellformed() implements the statement literally; n <= 12'],
             'deadline': {'quick': 600, 'thorough': 3 * 3600}},
